@@ -37,7 +37,7 @@ Fixpoint hex_decode (s : list Z) : option (list Z) :=
       match hex_val c1, hex_val c2 with
       | Some h, Some l =>
           match hex_decode t with
-          | Some r => Some (16 * h + l :: r)
+          | Some r => Some (h * 16 + l :: r)
           | None => None
           end
       | _, _ => None
@@ -98,6 +98,22 @@ Proof.
   split; [apply IH2|]. intros x. apply H2. assumption.
 Qed.
 
+Lemma hex_decode_cons2 c1 c2 t :
+  hex_decode (c1 :: c2 :: t) =
+  match hex_val c1, hex_val c2 with
+  | Some h, Some l =>
+      match hex_decode t with
+      | Some r => Some (h * 16 + l :: r)
+      | None => None
+      end
+  | _, _ => None
+  end.
+Proof. reflexivity. Qed.
+
+Lemma hex_encode_cons b t :
+  hex_encode (b :: t) = hex_digit (b / 16) :: hex_digit (b mod 16) :: hex_encode t.
+Proof. reflexivity. Qed.
+
 Lemma hex_val_digit d : 0 <= d < 16 -> hex_val (hex_digit d) = Some d.
 Proof.
   intros Hd. unfold hex_val, hex_digit. destruct (d <? 10) eqn:E.
@@ -123,7 +139,7 @@ Proof. induction a as [|x t IH]; [reflexivity|]. cbn [app hex_encode]. now rewri
 
 Theorem hex_roundtrip : forall b, bytes_ok b -> hex_decode (hex_encode b) = Some b.
 Proof.
-  induction 1 as [|x t Hx Ht IH]; [reflexivity|]. cbn [hex_encode hex_decode].
+  induction 1 as [|x t Hx Ht IH]; [reflexivity|]. cbn [hex_encode]. rewrite hex_decode_cons2.
   rewrite !hex_val_digit by lia. rewrite IH. f_equal. f_equal. lia.
 Qed.
 
@@ -137,13 +153,13 @@ Proof.
   intros s. induction s as [| c | c1 c2 t IH] using list_pair_ind; intros b H.
   - inv H. reflexivity.
   - discriminate.
-  - cbn [hex_decode] in H.
+  - rewrite hex_decode_cons2 in H.
     destruct (hex_val c1) as [h|] eqn:E1; [|discriminate].
     destruct (hex_val c2) as [l|] eqn:E2; [|discriminate].
     destruct (hex_decode t) as [r|] eqn:Et; [|discriminate]. injection H as <-.
     apply hex_digit_val in E1. apply hex_digit_val in E2. destruct E1 as [Hh E1]. destruct E2 as [Hl E2].
-    cbn [hex_encode lowercase map].
-    replace ((16 * h + l) / 16) with h by lia. replace ((16 * h + l) mod 16) with l by lia.
+    rewrite hex_encode_cons. unfold lowercase. rewrite !map_cons.
+    replace ((h * 16 + l) / 16) with h by lia. replace ((h * 16 + l) mod 16) with l by lia.
     rewrite E1, E2. f_equal. f_equal. apply IH. reflexivity.
 Qed.
 
@@ -158,7 +174,7 @@ Proof.
   intros s. induction s as [| c | c1 c2 t IH] using list_pair_ind; intros b H.
   - inv H. split; [constructor|reflexivity].
   - discriminate.
-  - cbn [hex_decode] in H.
+  - rewrite hex_decode_cons2 in H.
     destruct (hex_val c1) as [h|] eqn:E1; [|discriminate].
     destruct (hex_val c2) as [l|] eqn:E2; [|discriminate].
     destruct (hex_decode t) as [r|] eqn:Et; [|discriminate]. injection H as <-.
